@@ -20,7 +20,8 @@ package ws
 //@   lock lock level 50
 //@   guarded_by lock: pending running closed opts ug
 //@   cond cv uses lock
-//@   immutable: addr proto iswss
+//@   immutable: addr proto iswss url
+//@   pointee_immutable: url
 //@
 //@ func (*wsPipe).Send
 //@   before call:WriteMessage#1 assert len(buf) == len(m.Header) + len(m.Body)
